@@ -11,7 +11,7 @@ pub fn prop() -> Prop {
     id: "C06",
     rule: "case = (subject type in Subject / SubjectThreads / MutRefItemSubject / MutRefErrSubject / MutRefItemErrSubject; history of <= 10 operations over <= 4 subscribers: subscribe, subscribe a probe that subscribes a further probe to a clone of the subject from inside its first callback, unsubscribe one subscription, next (numbered items), error, complete, retain, unsubscribe the subject; every operation goes through a fresh clone of the subject). \
            Oracle (model = ordered list of live subscribers): every subscriber's trace equals the items sent while it was subscribed (joined before the emission began, not yet unsubscribed), each exactly once and in order, then the subject's terminal once; the in-callback subscriber does not see the in-flight item and sees every later one; after a terminal or unsubscribe() nothing is delivered to anybody and is_finished() and is_empty() are true; before that is_finished() is false. Non-trivial: a join or leave between two emissions, or an emission after a terminal/unsubscribe, or an in-callback join. Distinct by hash(case). Part `short` enumerates every history of length <= 5 for every subject type (thorough tier). \
-           Part `threads` (engine T): 2..3 threads each run <= 4 operations (next / complete / error / subscribe / unsubscribe) on one shared SubjectThreads with 1..2 probes subscribed up front, under a generated schedule of <= 3 preemptions at lock-acquisition granularity. Oracle: an item whose next() began after a subscriber's subscribe() had returned, and ended before any unsubscribe of that subscriber or any terminal began, is received by that subscriber exactly once; nobody receives an item twice, or an item whose next() began after its unsubscribe() had returned or ended before its subscribe() began; items of one producer arrive in order; at most one terminal per subscriber and nothing after it; no deadlock / panic.",
+           Part `threads` (engine T): 2..3 threads each run <= 4 operations (next / complete / error / subscribe / subscribe a probe that subscribes another from inside its callback / unsubscribe / retain / is_empty+len) on one shared SubjectThreads with 1..2 probes subscribed up front, under a generated schedule of <= 3 preemptions at lock-acquisition granularity. Oracle: an item whose next() began after a subscriber's subscribe() had returned, and ended before any unsubscribe of that subscriber or any terminal began, is received by that subscriber exactly once; nobody receives an item twice, or an item whose next() began after its unsubscribe() had returned or ended before its subscribe() began; items of one producer arrive in order; at most one terminal per subscriber and nothing after it; no deadlock / panic.",
     assumptions: &[
       "len() of a live subject is not constrained by the statement and is not checked",
       "a subscriber that joins after the subject terminated must receive nothing (it may or may not be told about the terminal: not checked)",
@@ -266,9 +266,26 @@ fn run_short(c: &mut dyn Choices, ctx: &Ctx) -> Outcome {
 // ------------------------------------------------------------ engine T part
 
 fn run_threads(c: &mut dyn Choices, ctx: &Ctx) -> Outcome {
-  use crate::props::c10::{case_json, execute, gen_scripts, judge as judge_c10, TCase};
+  use crate::props::c10::{case_json, execute, judge as judge_c10, TCase, TOp};
   use crate::tworld::PEv;
-  let (pre_subs, scripts) = gen_scripts(c, 0);
+  let n_threads = 2 + c.pick(2);
+  let pre_subs = 1 + c.pick(2);
+  let scripts: Vec<Vec<TOp>> = (0..n_threads)
+    .map(|_| {
+      (0..(1 + c.pick(4)))
+        .map(|_| match c.pick(14) {
+          0..=4 => TOp::Next(0),
+          5 => TOp::Complete(0),
+          6 => TOp::Error(0),
+          7 => TOp::Subscribe,
+          8 => TOp::SubscribeNesting,
+          9 | 10 => TOp::Unsubscribe(c.pick(3)),
+          11 => TOp::Retain,
+          _ => TOp::Size,
+        })
+        .collect()
+    })
+    .collect();
   let n = scripts.len();
   let k = c.pick(4);
   let mut preemptions: Vec<(u64, usize)> = (0..k).map(|_| (1 + c.pick(50) as u64, c.pick(n))).collect();
